@@ -205,6 +205,14 @@ func NewWorld(sc *Scenario, s *Sim, h *History) *World {
 		}
 		h.Add(Event{Kind: "net.close", Obj: c.ID(), Target: string(c.p.connTarget()), Info: info})
 	}
+	if sc.Params["scan_tmp"] != 0 {
+		// the moment the proxy starts forwarding a request is the moment its
+		// buffered body is certainly still held
+		w.Net.onProxyWrite = func(rid string) {
+			f, b := w.scanTmp()
+			h.Add(Event{Kind: "tmp.scan", Req: rid, N: f, Info: fmt.Sprint(b)})
+		}
+	}
 	// hooks
 	server.SimHook = s.Hook
 	server.SimNoteHook = w.note
@@ -212,6 +220,15 @@ func NewWorld(sc *Scenario, s *Sim, h *History) *World {
 	w.probeTr = &http.Transport{DialContext: w.Net.Dialer("probe", "10.0.0.1"), MaxIdleConns: 100, IdleConnTimeout: 90 * time.Second}
 	http.DefaultClient.Transport = w.probeTr
 	slog.SetDefault(slog.New(&captureHandler{w: w}))
+	// A closed health check whose ticker had a tick buffered may or may not run
+	// one more (no-op) check: Go's select picks at random between the two ready
+	// cases. That check does nothing observable, so it must not become a step.
+	s.skip = func(point string, arg any) bool {
+		if hc, ok := arg.(*server.HealthCheck); ok && point == "hc.check" {
+			return server.SimHealthCheckStopped(hc)
+		}
+		return false
+	}
 	s.namer = w.nameFor
 	s.onStep = w.onStep
 	w.CrashOn = sc.Params["crash"] != 0
@@ -393,6 +410,11 @@ type captureHandler struct {
 func (h *captureHandler) Enabled(context.Context, slog.Level) bool { return true }
 func (h *captureHandler) Handle(_ context.Context, r slog.Record) error {
 	if r.Message != "Request" {
+		if r.Level >= slog.LevelWarn && os.Getenv("VERIF_LOGS") != "" {
+			line := r.Message
+			r.Attrs(func(a slog.Attr) bool { line += fmt.Sprintf(" %s=%v", a.Key, a.Value.Any()); return true })
+			h.w.H.Add(Event{Kind: "log", Info: line})
+		}
 		return nil
 	}
 	m := map[string]any{"msg": r.Message}
@@ -522,8 +544,10 @@ func (w *World) tgtOptions(op *Op) server.TargetOptions {
 			o.ResponseTimeout = t.ResponseTimeout
 		}
 		o.BufferRequests, o.BufferResponses = t.BufferRequests, t.BufferResponses
-		if t.MaxMem != 0 {
+		if t.MaxMem > 0 {
 			o.MaxMemoryBufferSize = t.MaxMem
+		} else if t.MaxMem < 0 {
+			o.MaxMemoryBufferSize = 0
 		}
 		o.MaxRequestBodySize, o.MaxResponseBodySize = t.MaxReq, t.MaxResp
 		o.ForwardHeaders = t.ForwardHeaders
@@ -580,7 +604,10 @@ func (w *World) doCommand(actor string, idx int, op *Op) {
 			src := w.router(op.From)
 			b, err := os.ReadFile(src.StatePath)
 			if err == nil {
-				os.WriteFile(ri.StatePath, b, 0o644)
+				// The proxy lists its services in map order. Sorting the copy by
+				// service name keeps the restored router's object creation order
+				// (and with it task names) independent of that.
+				os.WriteFile(ri.StatePath, sortStateFile(b), 0o644)
 			}
 			res.Err = r.RestoreLastSavedState()
 		default:
@@ -826,6 +853,10 @@ func (w *World) doRawRequest(actor string, idx int, op *Op) {
 		return
 	}
 	defer c.Close()
+	if op.Frag > 0 {
+		c.SetLink(Link{Frag: op.Frag, FragGap: op.FragGap})
+		w.H.Add(Event{Kind: "fault", Req: rid, Info: "fragmented-delivery"})
+	}
 	if _, err := c.Write([]byte(raw)); err != nil {
 		resp.Err = "write: " + err.Error()
 		finish()
@@ -912,7 +943,10 @@ func BuildRaw(op *Op, rid string) string {
 		host = "example.test"
 	}
 	var b strings.Builder
-	fmt.Fprintf(&b, "%s %s HTTP/1.1\r\nHost: %s\r\nX-Request-Id: %s\r\n", method, uri, host, rid)
+	fmt.Fprintf(&b, "%s %s HTTP/1.1\r\nHost: %s\r\n", method, uri, host)
+	if !op.NoReqID {
+		fmt.Fprintf(&b, "X-Request-Id: %s\r\n", rid)
+	}
 	if op.Sim != "" {
 		fmt.Fprintf(&b, "X-Sim: %s\r\n", op.Sim)
 	}
@@ -1065,4 +1099,26 @@ func shortStack() string {
 		}
 	}
 	return strings.Join(keep, " < ")
+}
+
+// sortStateFile reorders the services of a state file by name; content that
+// does not parse is returned unchanged.
+func sortStateFile(b []byte) []byte {
+	var svcs []json.RawMessage
+	if json.Unmarshal(b, &svcs) != nil {
+		return b
+	}
+	name := func(r json.RawMessage) string {
+		var x struct {
+			Name string `json:"name"`
+		}
+		json.Unmarshal(r, &x)
+		return x.Name
+	}
+	sort.SliceStable(svcs, func(i, j int) bool { return name(svcs[i]) < name(svcs[j]) })
+	out, err := json.Marshal(svcs)
+	if err != nil {
+		return b
+	}
+	return out
 }
